@@ -33,6 +33,7 @@ func runC17(c *Ctx) {
 	c17R5(c)
 	c17R6(c)
 	c17R8(c)
+	c17R9(c)
 	livePersisted(c, c.R.Rule("R7", "K8 what is persisted is the live instance: a pipeline/connector/processor service method that fetched an instance hands that very instance to store.Set, or a copy that sets every exported field", 10))
 }
 
@@ -617,5 +618,30 @@ func c17R8(c *Ctx) {
 	}
 	if n == 0 {
 		c.R.Fail(r, "store decoders with a per-record loop", "", "no Unmarshal inside a loop found in the store files (migratePre041 expected)")
+	}
+}
+
+// c17R9: F57 (known finding). provisioning.Service.Init deletes every pipeline that is tagged as provisioned by a
+// configuration file and is not found in the pipelines directory. transactionalImport — the import behind the
+// ApplyPipeline API call, the deploy tool and `pipelines apply` — tags everything it imports ProvisionTypeConfig, so a
+// pipeline applied through the API is deleted, with its connectors and positions, by the next server start. The tag
+// has to come from the caller (Service.Import does that for programmatic imports, #1274).
+func c17R9(c *Ctx) {
+	r := c.R.Rule("R9", "K6 an applied pipeline survives the next start: the provision type transactionalImport hands to importPipeline comes from its caller (an API apply is not tagged as file-provisioned, which start-up provisioning deletes when the file is absent)", 1)
+	fn := c.SSA(r, pProv, "(*Service).transactionalImport")
+	imp := c.Fn(r, pProv, "(*Service).importPipeline")
+	cfgType := c.W.LookupObj(pPipe, "ProvisionTypeConfig")
+	if fn == nil || imp == nil || cfgType == nil {
+		return
+	}
+	calls := kit.CallsTo(fn, Set(imp))
+	if len(calls) == 0 {
+		c.R.Fail(r, "transactionalImport: importPipeline call", c.Pos(fn.Pos()), "no importPipeline call found")
+		return
+	}
+	for _, call := range calls {
+		a := call.Common().Args
+		fixed := isConstObj(a[len(a)-1], cfgType)
+		c.R.Check(!fixed, r, "transactionalImport: the provision type is chosen by the caller", c.Pos(call.Pos()), "parameter", "transactionalImport imports with the constant pipeline.ProvisionTypeConfig although it is reached from the ApplyPipeline API call (PipelineAPIv1.ApplyPipeline → ApplyPlanLive): the applied pipeline counts as file-provisioned, and provisioning.Service.Init → deleteOldPipelines removes every such pipeline that is not in the pipelines directory — after the next start the pipeline, its connectors and their positions are gone", true)
 	}
 }
